@@ -131,4 +131,115 @@ example : ∀ (k a : Nat), [2,0,1][k]? = some a → [1,2,0][a]? = some k := by
   | 2 => simp; intro h; subst h; rfl
   | k+3 => simp
 
+/-- **reshape shape = NumPy** (no `-1`): a non-empty target with the same element count is accepted and is the result shape -/
+theorem reshape_shape (src t : Shape) (hne : t ≠ []) (hp : prod t = prod src) :
+    shapeReshape src (t.map Int.ofNat) = some t := by
+  have hne' : t.map Int.ofNat ≠ [] := by simpa using hne
+  simp only [shapeReshape, countNegativeReshape_eq _ hne', cntNeg_ofNat, prodNonNeg_ofNat, hp]
+  simp
+  apply List.ext_getElem?
+  intro k
+  simp only [List.getElem?_map]
+  cases t[k]? with
+  | none => rfl
+  | some x =>
+    have : ¬ ((x : Int) = -1) := by omega
+    simp [this]
+
+/-- **one inferred `-1`** at any position: with `m` = product of the other (positive) target extents and `m ∣ size`,
+    the result shape is the target with `-1` replaced by `size / m` (NumPy's rule).
+    (`_hm`: with `m = 0` the C++ evaluates `size % 0`, which is undefined; Lean's `%` is total, so the model does not need it.) -/
+theorem reshape_infer (src pre post : Shape) (_hm : 0 < prod pre * prod post)
+    (hdiv : prod pre * prod post ∣ prod src) :
+    shapeReshape src (pre.map Int.ofNat ++ [-1] ++ post.map Int.ofNat)
+      = some (pre ++ [prod src / (prod pre * prod post)] ++ post) := by
+  have hne : pre.map Int.ofNat ++ [-1] ++ post.map Int.ofNat ≠ [] := by simp
+  have hc : cntNeg (pre.map Int.ofNat ++ [-1] ++ post.map Int.ofNat) = 1 := by
+    have h1 : cntNeg [(-1 : Int)] = 1 := by decide
+    simp only [cntNeg_append, cntNeg_ofNat, h1]
+  have hpn : prodNonNeg (pre.map Int.ofNat ++ [-1] ++ post.map Int.ofNat) = prod pre * prod post := by
+    simp only [prodNonNeg_append, prodNonNeg_ofNat]
+    simp [prodNonNeg, prod]
+  simp only [shapeReshape, countNegativeReshape_eq _ hne, hc, hpn]
+  have hmod : prod src % (prod pre * prod post) = 0 := Nat.mod_eq_zero_of_dvd hdiv
+  simp [hmod, map_infer_ofNat]
+
+/-- the inferred extent makes the element counts agree -/
+theorem reshape_infer_count (src pre post : Shape) (hdiv : prod pre * prod post ∣ prod src) :
+    prod (pre ++ [prod src / (prod pre * prod post)] ++ post) = prod src := by
+  simp only [prod_append, prod, Nat.mul_one]
+  rw [Nat.mul_right_comm, Nat.mul_comm _ (prod src / _)]
+  exact Nat.div_mul_cancel hdiv
+
+/-- **reshape keeps C order**: every accepted reshape (with or without `-1`) of an array with positive extents
+    has the same flattening as the source — element `k` of the result is element `k` of the source (`np.reshape`). -/
+theorem reshape_elem {α : Type} (a : Arr α) (fill : α) (dst : List Int) (v : IxView) (ha : Pos a.shape)
+    (hv : reshapeView a.shape dst = some v) :
+    prod v.dst = prod a.shape ∧ (v.apply a fill).flat = a.flat := by
+  simp only [reshapeView, Option.map_eq_some_iff] at hv
+  obtain ⟨s, hs, rfl⟩ := hv
+  have hp := shapeReshape_prod a.shape dst s ha hs
+  refine ⟨hp, ?_⟩
+  have hpos : Pos s := pos_of_prod_pos s (by rw [hp]; exact prod_pos ha)
+  simp only [Arr.flat, IxView.apply]
+  exact reshape_map_flat a s hpos ha hp
+
+/-- every access of an accepted reshape stays inside the source -/
+theorem reshape_inBounds (src : Shape) (dst : List Int) (v : IxView) (hs : Pos src)
+    (hv : reshapeView src dst = some v) : v.InBounds := by
+  simp only [reshapeView, Option.map_eq_some_iff] at hv
+  obtain ⟨s, _, rfl⟩ := hv
+  intro d _ i hi
+  simp only [Option.some.injEq] at hi
+  subst hi
+  exact indices_inShape hs _
+
+/-- **flatten** is accepted for positive extents, has shape `[size]` -/
+theorem flatten_shape (src : Shape) :
+    ∃ v, flattenView src = some v ∧ v.src = src ∧ v.dst = [prod src] := by
+  have h := reshape_shape src [prod src] (by simp) (by simp [prod])
+  simp only [List.map_cons, List.map_nil] at h
+  simp only [flattenView, reshapeView]
+  rw [show ((prod src : Nat) : Int) = Int.ofNat (prod src) from rfl, h]
+  exact ⟨_, rfl, rfl, rfl⟩
+
+/-- known finding: a target of rank 0 — NumPy's `()` for a one-element array — is refused (`dst_numel` stays 0) -/
+theorem reshape_to_rank0_counterexample :
+    prod ([] : Shape) = prod [1,1] ∧ shapeReshape [1,1] (([] : Shape).map Int.ofNat) ≠ some [] := by decide
+
+/-- **squeeze = NumPy** whenever the result has rank ≥ 1: all extents `1` are removed, the others keep their order,
+    C order of the elements is kept -/
+theorem squeeze_eq_spec {α : Type} (a : Arr α) (fill : α) (ha : Pos a.shape) (hne : ∃ e ∈ a.shape, e ≠ 1) :
+    ∃ v, squeezeView a.shape = some v ∧ v.src = a.shape ∧ v.dst = a.shape.filter (fun e => e != 1) ∧
+      (v.apply a fill).flat = a.flat ∧ v.InBounds := by
+  obtain ⟨e, he, he1⟩ := hne
+  have hne' : shapeSqueeze a.shape ≠ [] := by
+    intro h
+    have : e ∈ shapeSqueeze a.shape := by simp [shapeSqueeze, he, he1]
+    rw [h] at this; simp at this
+  exact reshapeView_nat a fill (shapeSqueeze a.shape) hne' (prod_filter_ne_one _) ha
+
+/-- known finding: squeezing an all-ones shape (NumPy: shape `()`) returns Nothing -/
+theorem squeeze_all_ones_counterexample : squeezeView [1,1] = none ∧ [1,1].filter (fun e => e != 1) = ([] : Shape) := by
+  decide
+
+/-- **atleast_nd / atleast_1d / atleast_2d = NumPy** (`ndmin`): ones are prepended up to rank `nd`, C order kept;
+    holds whenever the result rank is ≥ 1 -/
+theorem atleastNd_eq_spec {α : Type} (a : Arr α) (fill : α) (nd : Nat) (ha : Pos a.shape)
+    (hr : 0 < max a.shape.length nd) :
+    ∃ v, atleastNdView a.shape nd = some v ∧ v.src = a.shape ∧
+      v.dst = List.replicate (nd - a.shape.length) 1 ++ a.shape ∧
+      (v.apply a fill).flat = a.flat ∧ v.InBounds := by
+  have hsh : shapeAtleastNd a.shape nd = List.replicate (nd - a.shape.length) 1 ++ a.shape := by
+    simp only [shapeAtleastNd]; congr 2; omega
+  have hne : shapeAtleastNd a.shape nd ≠ [] := by
+    intro h
+    have := congrArg List.length h
+    simp only [shapeAtleastNd, List.length_append, List.length_replicate, List.length_nil] at this
+    omega
+  have hp : prod (shapeAtleastNd a.shape nd) = prod a.shape := by
+    simp [shapeAtleastNd, prod_append, prod_replicate_one]
+  obtain ⟨v, h1, h2, h3, h4⟩ := reshapeView_nat a fill _ hne hp ha
+  exact ⟨v, h1, h2, by rw [h3, hsh], h4⟩
+
 end NmVerif.Props.C03
